@@ -407,8 +407,6 @@ def scanner_tables(ctx, res, rule, mode="sound"):
         # the cursor moves one byte at a time (no byte is skipped unexamined)
         if sl["form"] == "for":
             res.holds(rule, fn, "step:for over %s" % T.render(loop["iter"])[:40])
-        elif not any(n.get("k") == "assign_op" and T.lit_value(n["r"]) == 1 for n in T.nodes(loop["body"])):
-            res.add(Finding(rule, fn, "step:none", "the scan cursor is never moved inside the scan loop: the scan does not terminate on a blank", loc=T.loc(loop)))
         for n in T.nodes(b["tree"]):
             if n.get("k") == "assign_op":
                 if T.lit_value(n["r"]) == 1 and n["op"] in ("+", "-", "+=", "-="):
@@ -421,6 +419,43 @@ def scanner_tables(ctx, res, rule, mode="sound"):
     if mode == "complete":
         return
     _indent_remover_table(ctx, res, rule)
+
+
+def scanners_move(ctx, res, rule):
+    """`return normally`: each of the three scanner loops moves its cursor (a `for` over a range, or a `loop` that steps the
+    cursor by one somewhere in its body) - a scan that never moves does not terminate on the first blank."""
+    P = ctx.lib
+    for fname in ("find_next_line_break_pos", "find_prev_line_break_pos", "find_next_char_pos"):
+        b = P.fn(fname)
+        fn = fshort(b)
+        sl = scan_loop(b)
+        if sl is None:
+            continue          # (the table rules report an unrecognised loop)
+        if sl["form"] == "for" or any(n.get("k") == "assign_op" and T.lit_value(n["r"]) == 1 for n in T.nodes(sl["node"]["body"])):
+            res.holds(rule, fn, "scan-moves")
+        else:
+            res.add(Finding(rule, fn, "scan-moves", "the scan cursor is never moved inside the scan loop: the scan does not terminate on a blank", loc=T.loc(sl["node"])))
+
+
+def indent_found_is_returned(ctx, res, rule):
+    """What the backward scan of IndentRemover finds is handed back: some return (outside the loop, or from inside it) is a
+    range other than the empty (seam, seam) - otherwise the tag line's indentation is never removed."""
+    P = ctx.lib
+    b = P.fn("IndentRemover::format")
+    fn = fshort(b)
+    seam = b["params"][2]["pat"].get("name") if len(b["params"]) == 3 else None
+    empty = "(%s, %s)" % (seam, seam)
+    blk = T.peel(b["tree"])
+    while blk.get("k") == "blockexpr":
+        blk = blk["block"]
+    cands = [T.peel(n["e"]) for n in T.nodes(b["tree"], "ret") if n.get("e") is not None]
+    if blk.get("tail") is not None:
+        cands.append(T.peel(blk["tail"]))
+    tuples = [x for c_ in cands for x in T.nodes(c_) if x.get("k") == "tuple" and len(x.get("es", [])) == 2]
+    if any(T.render(x) != empty for x in tuples):
+        res.holds(rule, fn, "found-is-returned")
+    else:
+        res.add(Finding(rule, fn, "found-is-returned", "no return of IndentRemover hands back the indentation that the scan found: the tag line's indentation is never removed", loc=T.loc(b["tree"])))
 
 
 def indent_begins_behind_break(ctx, res, rule):
